@@ -216,6 +216,18 @@ func Compare(a, b Value) int {
 		}
 		return bytes.Compare([]byte(as), []byte(bs))
 	default:
+		// a number against a string constant: MySQL converts the constant to the
+		// column's type, so an exactly numeric string is compared exactly
+		if (a.K == KInt || a.K == KDec) && b.K == KString {
+			if d, err := ParseDec(b.S); err == nil && b.S != "" {
+				return a.rat().Cmp(d.rat())
+			}
+		}
+		if (b.K == KInt || b.K == KDec) && a.K == KString {
+			if d, err := ParseDec(a.S); err == nil && a.S != "" {
+				return d.rat().Cmp(b.rat())
+			}
+		}
 		return cmpFloat(a.float(), b.float())
 	}
 }
